@@ -82,3 +82,172 @@ Example real_model_no_overlap :
   running GLC 1 (exec [[mkOp GLC 1 101 0]; [mkOp GLC 1 201 0]; [mkOp GLC 1 301 0]]
                       [0;0;0; 1;1; 2;2; 0;0;0; 1;1;1; 2;2;2;2]) = 1.
 Proof. vm_compute. reflexivity. Qed.
+
+(* (c) LockedCalls rewritten as a map of per-key mutexes WITHOUT a reference count (seeded
+   change C07-3): a caller fetches or creates the mutex of its key under the group lock, queues on
+   it with Lock(), runs fn, and on the way out deletes the key from the map and then unlocks.
+   Heap object = the mutex, [cdone = true] = unlocked.
+     PCalled  --fetch or create-->  PWait c          (holds the pointer, about to Lock)
+     PWait c  --Lock (if free)-->   PLead c
+     PLead c -> PInFn c -> PFnDone c r               (fn)
+     PFnDone  --delete(m, key)-->   PDeleted c r     (whatever entry is there)
+     PDeleted --Unlock; return-->   PIdle *)
+Definition mutexmap_step (s : state) (t : nat) : option state :=
+  match nth_error (threads s) t with
+  | Some th =>
+    match cur_op th with
+    | Some o =>
+      let k := okey o in
+      let T := S (now s) in
+      let put th' := upd_nth (threads s) t th' in
+      match ogrp o, tpc th with
+      | GLC, PCalled =>
+        match calls s GLC k with
+        | Some c => Some (mkState T (calls s) (heap s) (nextc s) (resources s) (ncreated s) (put (set_pc th (PWait c))))
+        | None =>
+          let c := nextc s in
+          Some (mkState T (set_calls (calls s) GLC k (Some c))
+                  (fupd (heap s) c (mkCall GLC k (t, topi th) (tinv th) None true None))
+                  (S c) (resources s) (ncreated s) (put (set_pc th (PWait c))))
+        end
+      | GLC, PWait c =>
+        if cdone (heap s c) then
+          let h := heap s c in
+          Some (mkState T (calls s)
+                  (fupd (heap s) c (mkCall (cgrp h) (ckey h) (clead h) (cinvt h) (cval h) false (cret h)))
+                  (nextc s) (resources s) (ncreated s) (put (set_pc th (PLead c))))
+        else None
+      | GLC, PDeleted c r =>
+        let h := heap s c in
+        Some (mkState T (calls s)
+                (fupd (heap s) c (mkCall (cgrp h) (ckey h) (clead h) (cinvt h) (cval h) true (cret h)))
+                (nextc s) (resources s) (ncreated s) (put (finish th (fst r) (snd r) true c (now s))))
+      | _, _ => step s t
+      end
+    | None => None
+    end
+  | None => None
+  end.
+
+(* A runs; B queues behind A; A finishes (deletes the key, hands its mutex to B); B runs;
+   C arrives, finds no entry, makes a second mutex and runs while B is still running *)
+Definition mm_scripts : list (list op) := [[mkOp GLC 1 101 0]; [mkOp GLC 1 201 0]; [mkOp GLC 1 301 0]].
+Definition mm_sched : list nat := [0;0;0;0; 1;1; 0;0;0; 1;1; 2;2;2;2].
+
+Theorem mutex_map_without_refcount_overlap_refuted :
+  exists scripts sched, 2 <= running GLC 1 (run mutexmap_step (init scripts) sched).
+Proof. exists mm_scripts, mm_sched. vm_compute. apply le_n. Qed.
+
+(* two callers only (one running, one queued, nobody arriving later) stay serial in the variant:
+   the overlap needs the newcomer *)
+Example mutex_map_two_callers_serial :
+  running GLC 1 (run mutexmap_step (init [[mkOp GLC 1 101 0]; [mkOp GLC 1 201 0]]) [0;0;0;0; 1;1; 0;0;0; 1;1]) = 1.
+Proof. vm_compute. reflexivity. Qed.
+
+(* the real model on the same arrivals: C waits behind B *)
+Example real_model_newcomer_waits :
+  let s := exec mm_scripts [0;0;0;0; 1;1; 0;0;0; 1;1;1; 2;2;2] in
+  running GLC 1 s = 1 /\ enabled s 2 = false.
+Proof. vm_compute. split; reflexivity. Qed.
+
+(* (d) ResourceManager with the "is it already there" check hoisted out of the singleflight
+   closure into a fast path in front of singleFlight.Do, the check inside dropped (seeded
+   changes C07-1, C07-2). *)
+Definition fastpath_step (s : state) (t : nat) : option state :=
+  match nth_error (threads s) t with
+  | Some th =>
+    match cur_op th with
+    | Some o =>
+      let T := S (now s) in
+      let put th' := upd_nth (threads s) t th' in
+      match ogrp o, tpc th with
+      | GRM, PIdle =>
+        (* invoke + fast path *)
+        match resources s (okey o) with
+        | Some x =>
+          Some (mkState T (calls s) (heap s) (nextc s) (resources s) (ncreated s)
+                  (put (finish (mkThread PIdle (tscript th) (topi th) (now s) (now s) 0 (tres th)) x 0 false 0 (now s))))
+        | None =>
+          Some (mkState T (calls s) (heap s) (nextc s) (resources s) (ncreated s)
+                  (put (mkThread PCalled (tscript th) (topi th) (now s) (tjoin th) 0 (tres th))))
+        end
+      | GRM, PInFn c =>
+        (* no check inside the flight: straight to create *)
+        Some (mkState T (calls s) (heap s) (nextc s) (resources s) (ncreated s) (put (set_pc th (PRmCreate c))))
+      | _, _ => step s t
+      end
+    | None => None
+    end
+  | None => None
+  end.
+
+(* X looks (miss) and stops in front of singleFlight.Do; Y completes a whole GetResource
+   (creates 201); X goes on, leads a new flight and creates 101: two successful creations, two
+   different instances handed out *)
+Theorem fast_path_without_recheck_creates_twice_refuted :
+  exists scripts sched,
+    let s := run fastpath_step (init scripts) sched in
+    ncreated s 1%Z = 2 /\
+    map (fun th => map (fun r => (rval r, rerr r)) (tres th)) (threads s) = [[(101%Z, 0%Z)]; [(201%Z, 0%Z)]].
+Proof.
+  exists [[mkOp GRM 1 101 0]; [mkOp GRM 1 201 0]], [0; 1;1;1;1;1;1;1;1; 0;0;0;0;0;0;0].
+  vm_compute. split; reflexivity.
+Qed.
+
+Example real_model_same_schedule_creates_once :
+  let s := exec [[mkOp GRM 1 101 0]; [mkOp GRM 1 201 0]] [0; 1;1;1;1;1;1;1;1; 0;0;0;0;0;0;0] in
+  ncreated s 1%Z = 1 /\
+  map (fun th => map (fun r => (rval r, rerr r)) (tres th)) (threads s) = [[(201%Z, 0%Z)]; [(201%Z, 0%Z)]].
+Proof. vm_compute. split; reflexivity. Qed.
+
+(* (e) The REAL model (and the real code: replayed by the corpus of the check): when the
+   leader's function panics, a SingleFlight waiter returns (nil, nil) although no function of
+   the history returned that pair - the strict reading of "every caller receives the value and
+   error of its own execution or of an overlapping execution" fails for panicking functions
+   (which the property's quantifier does not list). *)
+Theorem panic_hands_nil_to_waiters_refuted :
+  exists scripts sched t th r,
+    nth_error (threads (exec scripts sched)) t = Some th /\ In r (tres th) /\
+    rfresh r = false /\ (rval r, rerr r) = (vnil, 0%Z) /\
+    forall sc o, In sc scripts -> In o sc -> fn_ret o <> (vnil, 0%Z).
+Proof.
+  exists [[mkOp GSF 1 101 epanic]; [mkOp GSF 1 201 0]], [0;0;0; 1;1; 0;0;0; 1], 1.
+  eexists. eexists. split; [vm_compute; reflexivity|]. split; [left; reflexivity|].
+  split; [reflexivity|]. split; [reflexivity|].
+  intros sc o [<-|[<-|[]]] [<-|[]]; vm_compute; discriminate.
+Qed.
+
+(* (f) the clean-up of makeCall NOT deferred (straight-line code after fn()): a panic of the
+   function skips delete and wg.Done; the waiter is blocked for ever and the key stays taken -
+   the deadlock that [Props.no_deadlock] excludes for the real model. *)
+Definition undeferred_step (s : state) (t : nat) : option state :=
+  match nth_error (threads s) t with
+  | Some th =>
+    match cur_op th, tpc th with
+    | Some o, PInFn c =>
+      if panics o && negb (grp_eqb (ogrp o) GRM) then
+        Some (mkState (S (now s)) (calls s) (heap s) (nextc s) (resources s) (ncreated s)
+                (upd_nth (threads s) t (finish th vnil epanic true c (now s))))
+      else step s t
+    | _, _ => step s t
+    end
+  | None => None
+  end.
+
+Theorem undeferred_cleanup_deadlocks_refuted :
+  exists scripts sched,
+    let s := run undeferred_step (init scripts) sched in
+    unfinished s = true /\
+    existsb (fun t => match undeferred_step s t with Some _ => true | None => false end)
+            (seq 0 (length (threads s))) = false.
+Proof.
+  exists [[mkOp GSF 1 101 epanic]; [mkOp GSF 1 201 0]], [0;0;0; 1;1; 0].
+  vm_compute. split; reflexivity.
+Qed.
+
+Example real_model_panic_releases_waiter :
+  let s := exec [[mkOp GSF 1 101 epanic]; [mkOp GSF 1 201 0]] [0;0;0; 1;1; 0;0;0; 1] in
+  unfinished s = false /\
+  map (fun th => map (fun r => (rval r, rerr r, rfresh r)) (tres th)) (threads s)
+  = [[(vnil, epanic, true)]; [(vnil, 0%Z, false)]].
+Proof. vm_compute. split; reflexivity. Qed.
